@@ -10,6 +10,7 @@ type VerifMsg struct {
 	Body          string `json:"body"`
 	DeliveryCount uint32 `json:"dc"`
 	Persistent    bool   `json:"pers"`
+	MessageID     string `json:"mid"`
 }
 
 // VerifQueueSnap is the verification snapshot of a queue.
@@ -46,6 +47,9 @@ func (queue *Queue) VerifSnap() VerifQueueSnap {
 		vm := VerifMsg{ID: m.ID, DeliveryCount: m.DeliveryCount}
 		if m.Header != nil && m.Header.PropertyList != nil {
 			vm.Persistent = m.IsPersistent()
+			if m.Header.PropertyList.MessageID != nil {
+				vm.MessageID = *m.Header.PropertyList.MessageID
+			}
 		}
 		for _, f := range m.Body {
 			if len(vm.Body) < 64 {
